@@ -388,6 +388,41 @@ def fam_rings(rng, nmax):
     return funcs, []
 
 
+def fam_osc_latches(rng, nmax):
+    """An unconditional negative cycle (never stabilises) next to 2-4 latches
+    `l = l | <monotone terms over other latches and oscillator phases>`: the root has
+    several overlapping stable motifs, most of them non-minimal, and the candidate states of
+    sibling nodes lie in their intersections -- the shape in which attractor-seed expansion
+    declines a stub because a sibling was expanded first (order / resume sensitivity)."""
+    k = 2 if nmax < 6 or rng.random() < 0.7 else 3
+    funcs = []
+    for i in range(k):
+        src = (i - 1) % k
+        funcs.append([[src], [1, 0] if i == 0 else [0, 1]])
+    nl = max(2, min(nmax - k, rng.choice([2, 3, 3, 4])))
+    lat = list(range(k, k + nl))
+    for x in lat:
+        terms = []
+        for _ in range(rng.randint(1, 3)):
+            pool = [v for v in lat if v != x] + list(range(k))
+            t = sorted(rng.sample(pool, rng.randint(1, min(3, len(pool)))))
+            pol = {v: (1 if v >= k or rng.random() < 0.7 else 0) for v in t}
+            terms.append(pol)
+        regs = sorted({x} | {v for t in terms for v in t})[:5]
+        if x not in regs:
+            regs = sorted(regs[:4] + [x])
+        pos = {v: j for j, v in enumerate(regs)}
+        tt = []
+        for idx in range(1 << len(regs)):
+            val = (idx >> pos[x]) & 1
+            for t in terms:
+                if all(v in pos for v in t) and all(((idx >> pos[v]) & 1) == b for v, b in t.items()):
+                    val = 1
+            tt.append(val)
+        funcs.append([regs, tt])
+    return funcs, []
+
+
 def fam_inputs_mix(rng, nmax):
     """A small core read by and reading from: genuine inputs (free or `x = x`), constants,
     and *pseudo-inputs* — variables whose update function collapses to the identity only
@@ -480,7 +515,7 @@ def fam_degenerate(rng, nmax):
     return funcs, free
 
 
-FAMILIES = ["sparse", "dense", "canal", "modular", "maa", "cascade", "maa_cascade", "degenerate", "maa_deadpad", "rings", "inputs_mix"]
+FAMILIES = ["sparse", "dense", "canal", "modular", "maa", "cascade", "maa_cascade", "degenerate", "maa_deadpad", "rings", "inputs_mix", "osc_latches"]
 
 
 def gen_network(rng, weights=None, nmin=2, nmax=6, fmts=("bnet", "aeon"), names=None, shuffle_order=False):
@@ -510,6 +545,8 @@ def gen_network(rng, weights=None, nmin=2, nmax=6, fmts=("bnet", "aeon"), names=
         funcs, free = fam_rings(rng, nmax)
     elif fam == "inputs_mix":
         funcs, free = fam_inputs_mix(rng, nmax)
+    elif fam == "osc_latches":
+        funcs, free = fam_osc_latches(rng, max(nmax, 5))
     elif fam == "cascade":
         funcs, free = fam_cascade(rng, rng.randint(max(nmin, 3), nmax))
     else:
